@@ -221,6 +221,22 @@ def run(ctx):
     ctx.floor("kernel bindings in mutate", n_bind, 3)
 
     temp_rule(ctx)
+    # ---- closures that stand in for the user's likelihood / prior (pool wrappers, kernel targets built in a loop) must bind per iteration
+    from .common import late_bound_closures
+    lb = []
+    n_fn = 0
+    for f_ in repo.all_functions():
+        mod_ = f_.ident.split(":")[0]
+        if not (mod_.startswith("aspire.samplers") or mod_ in ("aspire.utils", "aspire.aspire")):
+            continue
+        n_fn += 1
+        lb += [(f_, c_, L_, v_) for c_, L_, v_ in late_bound_closures(f_)]
+    ctx.count("functions_scanned_for_late_binding", n_fn)
+    ctx.decide(not lb, "C05.bind", "package", loc_of(lb[0][0], lb[0][1]) if lb else "src/aspire",
+               "no closure created in a loop reads a loop variable late (every wrapper of the likelihood / prior / target is bound to its own callable)",
+               (f"{lb[0][0].ident}: a closure created inside the loop at line {lb[0][2].lineno} reads the loop variable `{lb[0][3]}` as a free variable: after the loop every such closure "
+                "calls the value of the last iteration -- e.g. the wrapper installed as the likelihood evaluates the prior, so the kernel target counts one term twice and drops the other") if lb else "",
+               disc="late-binding")
 
     # the log|det dx/dz| term is the preconditioning transform's inverse log-Jacobian
     from ..report import reuse
@@ -265,6 +281,9 @@ MUTANTS = [
     M("SMC target subtracts Jacobian", _B, ").flatten() + samples.array_to_namespace(log_abs_det_jacobian)\n\n        log_prob = update_at_indices(", ").flatten() - samples.array_to_namespace(log_abs_det_jacobian)\n\n        log_prob = update_at_indices(", "C05.id"),
     M("final enlargement mutated at the pre-resample temperature", _B, "samples = self.mutate(final_samples, 1.0, n_steps=n_final_steps)", "samples = self.mutate(final_samples, samples.beta, n_steps=n_final_steps)", "C05.temp"),
     M("loop mutates at the previous temperature", _B, "samples = self.mutate(samples, beta)", "samples = self.mutate(samples, self.history.beta[-2] if len(self.history.beta) > 1 else 0.0)", "C05.temp"),
+    M("pool wrappers built in a loop over the targets (late-binding lambda: both call the last callable)", "src/aspire/utils.py",
+      "self.aspire_instance.log_likelihood = partial(\n                self.original_log_likelihood, map_fn=self.pool.map\n            )",
+      "for name in [\"log_likelihood\"] + ([\"log_prior\"] if self.parallelize_prior else []):\n                original = getattr(self.aspire_instance, name)\n                setattr(self.aspire_instance, name, lambda samples, **kw: original(samples, map_fn=self.pool.map, **kw))", "C05.bind"),
     M("SMC target without NaN map", _B, "log_prob = update_at_indices(\n            log_prob, self.xp.isnan(log_prob), -self.xp.inf\n        )\n        return log_prob", "return log_prob", "C05.nan"),
     M("SMC NaN mapped to +inf", _B, "log_prob, self.xp.isnan(log_prob), -self.xp.inf", "log_prob, self.xp.isnan(log_prob), self.xp.inf", "C05.nan"),
     M("SMC target evaluates q at z", _B, "log_q = self.prior_flow.log_prob(samples.x)", "log_q = self.prior_flow.log_prob(z)", "C05.id", within="SMCSampler.log_prob"),
@@ -284,6 +303,9 @@ MUTANTS += [
     M("minipcn kernel built without the target", _MP, "log_prob_fn=log_prob_fn,\n            step_fn", "log_prob_fn=self.log_prior,\n            step_fn", "C05.bind"),
 ]
 NEUTRALS = [
+    M("pool wrappers built in a loop with the callable bound per iteration", "src/aspire/utils.py",
+      "self.aspire_instance.log_likelihood = partial(\n                self.original_log_likelihood, map_fn=self.pool.map\n            )",
+      "for name in [\"log_likelihood\"]:\n                original = getattr(self.aspire_instance, name)\n                setattr(self.aspire_instance, name, lambda samples, original=original, **kw: original(samples, map_fn=self.pool.map, **kw))"),
     __import__("aspire_sa.rules.smcloop", fromlist=["HELPER_NEUTRAL"]).HELPER_NEUTRAL,
     M("NaN map via where", _B, "log_prob = update_at_indices(\n            log_prob, self.xp.isnan(log_prob), -self.xp.inf\n        )", "log_prob = self.xp.where(self.xp.isnan(log_prob), -self.xp.inf, log_prob)"),
     M("tempered density regrouped", _S, "return (1 - beta) * self.log_q + beta * log_p_T", "return self.log_q + beta * (log_p_T - self.log_q)"),
